@@ -8,8 +8,9 @@ from ..core import Batch, cN, cZ, cbool, clist, copt, cpair, cnat
 ID = "C16"
 LEVEL = "proof"
 PROP_FILE = "Properties/C16.v"
-PROOF_FILES = ["Gen/EntryGen.v", "Proofs/EntryGenProofs.v", "Proofs/EntryExtraProofs.v", "Proofs/EntryProofs.v", "Model/Entry.v", "Base/Ext.v"]
+PROOF_FILES = ["Gen/TableGen.v", "Proofs/TableGenProofs.v", "Gen/EntryGen.v", "Proofs/EntryGenProofs.v", "Proofs/EntryExtraProofs.v", "Proofs/EntryProofs.v", "Model/Entry.v", "Base/Ext.v"]
 TRUSTED = [
+    "translator translator/pyfun.py + translator/table_gen.py: Table, TableProxy, EntryProxy and _generate_table (dictionary dimensions) are translated into Gen/TableGen.v on every run and proved to read and update like the table model",
     "translator translator/pyfun.py + the type table in translator/entry_gen.py: Entry.__init__ (default path), update, combine, is_infinite, value, infos are translated statement by statement into Gen/EntryGen.v on every run and proved equal to Model/Entry.v (values as ext, a tag = a truthy info = Some t, a Python set = duplicate-free list in insertion order, combinator pure and total)","model Model/Entry.v of Entry/EntryProxy/Table (utils/dynamic_programming.py): tag set as duplicate-free list, values in Z + {-inf, +inf}"]
 ASSUMES = ["infinity.inf compares and adds like an extended integer", "falsy info tags (None) are the only untagged candidates used; hashable tags compare by equality"]
 RULE = ("update histories = sequences of (value, tag) candidates split into batches, for the 2x3 policies, on standalone entries and table cells; "
@@ -17,7 +18,7 @@ RULE = ("update histories = sequences of (value, tag) candidates split into batc
         "non-trivial = at least two candidates of which two tie for the optimum or an improving candidate follows a tagged one")
 OPEN_GOALS: list = []
 TECHNIQUE = "translator tie: class Entry is regenerated into Gallina on every run and proved equal to the model; Coq proof by induction over update histories (case lemma per update step) of value/tag laws; model tied to Entry/Table by exhaustive short histories + random long ones evaluated with vm_compute"
-LEVEL_TEXT = ("Reading of the statement made explicit by theorems: a tag is a TRUTHY info (a candidate whose info is falsy is untagged: C16_untagged_candidate/_history); combine pairs retained tags, so under NONE it returns the infinite default (C16_combine_no_tags); a table cell ignores batches made only of infinite candidates. Class Entry itself is translated from the source on every run and proved equal to the model (C16_gen_entry_*). Machine-checked for histories of any length: value = optimum of all candidates; tags under ALL = exactly the tags of optimal candidates (duplicate-free), "
+LEVEL_TEXT = ("Table / TableProxy / EntryProxy (dictionary dimensions) are also translated from the source on every run and proved equal to the table model (C16_gen_table_*, C16_table_*). Reading of the statement made explicit by theorems: a tag is a TRUTHY info (a candidate whose info is falsy is untagged: C16_untagged_candidate/_history); combine pairs retained tags, so under NONE it returns the infinite default (C16_combine_no_tags); a table cell ignores batches made only of infinite candidates. Class Entry itself is translated from the source on every run and proved equal to the model (C16_gen_entry_*). Machine-checked for histories of any length: value = optimum of all candidates; tags under ALL = exactly the tags of optimal candidates (duplicate-free), "
               "under ANY one tag of an optimal candidate iff one is tagged, under NONE none; batching irrelevant; combine = optimum/arg-opt over pairs of retained tags; "
               "a table cell reads as the entry fed the finite-bearing batches addressed to it, default when there are none. "
               "Model compared with the implementation on every history up to length 3 (quick) / 4 (thorough) over {0,1,2}x{none,a,b}, all batchings, 6 policies, "
@@ -131,6 +132,10 @@ def _oracle_entry(mp_min, rp, flat, r, start=None):
 
 
 def pre_build(ctx):
+    from translator import table_gen
+    from .. import core
+    changed = False
+    changed = table_gen.regenerate(core.REPO) or changed
     from translator import entry_gen
     from .. import core
     changed = entry_gen.regenerate(core.REPO)
